@@ -4,6 +4,12 @@ import FFS.Model.Rlp
 namespace FFS.Model.Rlp
 open FFS FFS.Gen.RlpConsts
 
+/-- simp set turning the generated Bool guards into arithmetic propositions -/
+macro "guards_to_props" : tactic =>
+  `(tactic| simp only [decCase0, decCase1, decCase2, decCase3, decCase4, decCase5, encSingle, encShort,
+      lenReject, Bool.and_eq_true, Bool.or_eq_true, decide_eq_true_eq, Bool.not_eq_true',
+      decide_eq_false_iff_not] at *)
+
 theorem slice?_ne_panic {α : Type} {xs : List α} {lo hi : Nat} (h1 : lo ≤ hi) (h2 : hi ≤ xs.length) :
     slice? xs lo hi = .ok ((xs.drop lo).take (hi - lo)) := by
   simp [slice?, h1, h2]
@@ -21,6 +27,8 @@ theorem minimalBytesToInt64_ok {d : Bytes} {v : Nat} (h : minimalBytesToInt64 d 
   · cases h
   · rename_i hc
     injection h with h
+    guards_to_props
+    simp only [maxInt32]
     omega
 
 theorem extractLongLenAux_ne_panic (k : Nat) {bs : Bytes} (hne : 0 < bs.length) :
@@ -70,6 +78,27 @@ theorem extractLongLen_ok {isList : Bool} {p : Nat} {bs : Bytes} {dl pos : Nat} 
   have := extractLongLenAux_ok hne h
   omega
 
+/-! The translated guards, pinned to the arithmetic facts the proofs use. A change of a constant or a
+    comparison in /repo/pkg/rlp changes `Gen.RlpConsts` and breaks these. -/
+theorem decCase0_iff (p : Nat) : decCase0 p = true ↔ p < 128 := by simp [decCase0]
+theorem decCase1_iff (p : Nat) : decCase1 p = true ↔ p = 128 := by simp [decCase1]
+theorem decCase2_iff (p : Nat) : decCase2 p = true ↔ (128 < p ∧ p ≤ 183) := by simp [decCase2]
+theorem decCase3_iff (p : Nat) : decCase3 p = true ↔ (183 < p ∧ p < 192) := by simp [decCase3]
+theorem decCase4_iff (p : Nat) : decCase4 p = true ↔ (192 ≤ p ∧ p ≤ 247) := by simp [decCase4]
+theorem decCase5_iff (p : Nat) : decCase5 p = true ↔ 247 < p := by simp [decCase5]
+theorem lenReject_iff (v : Nat) : lenReject v = true ↔ (2 ^ 63 ≤ v ∨ 2147483647 < v) := by
+  simp [lenReject]
+theorem encSingle_iff (len b0 : Nat) (isList : Bool) :
+    encSingle len b0 isList = true ↔ (len = 1 ∧ isList = false ∧ b0 ≤ 127) := by
+  simp [encSingle, and_assoc]
+theorem encShort_iff (len : Nat) : encShort len = true ↔ len ≤ 55 := by simp [encShort]
+
+theorem decCase5_of_not {p : Nat} (h0 : ¬ decCase0 p = true) (h1 : ¬ decCase1 p = true)
+    (h2 : ¬ decCase2 p = true) (h3 : ¬ decCase3 p = true) (h4 : ¬ decCase4 p = true) :
+    decCase5 p = true := by
+  guards_to_props
+  omega
+
 theorem header_ne_panic {bs : Bytes} (hne : bs ≠ []) : header bs ≠ .panic := by
   cases bs with
   | nil => exact absurd rfl hne
@@ -100,7 +129,9 @@ theorem header_ne_panic {bs : Bytes} (hne : bs ≠ []) : header bs ≠ .panic :=
       · simp
       · rw [slice?_ne_panic (by omega) (by simp at *; omega)]
         simp [Outcome.bind]
-    · cases he : extractLongLen true b.toNat (b :: t) with
+    · rename_i h0 h1 h2 h3 h4
+      rw [if_pos (decCase5_of_not h0 h1 h2 h3 h4)]
+      cases he : extractLongLen true b.toNat (b :: t) with
       | ok r =>
         obtain ⟨dl, pos⟩ := r
         have := extractLongLen_ok (by simp) he
@@ -158,7 +189,9 @@ theorem header_leaf_bounds {bs : Bytes} {it : Item} {n : Nat} (h : header bs = .
       · rename_i hc
         rw [slice?_ne_panic (by omega) (by simp at *; omega)] at h
         simp [Outcome.bind] at h
-    · cases he : extractLongLen true b.toNat (b :: t) with
+    · rename_i h0 h1 h2 h3 h4
+      rw [if_pos (decCase5_of_not h0 h1 h2 h3 h4)] at h
+      cases he : extractLongLen true b.toNat (b :: t) with
       | ok r =>
         obtain ⟨dl, pos⟩ := r
         have hb := extractLongLen_ok (by simp) he
@@ -208,7 +241,9 @@ theorem header_sub_bounds {bs : Bytes} {p : Bytes} {n : Nat} (h : header bs = .o
         refine ⟨by omega, by simp at *; omega, ?_, ?_⟩
         · simp; omega
         · simp [longList, shortList, maxInt32] at *; omega
-    · cases he : extractLongLen true b.toNat (b :: t) with
+    · rename_i h0 h1 h2 h3 h4
+      rw [if_pos (decCase5_of_not h0 h1 h2 h3 h4)] at h
+      cases he : extractLongLen true b.toNat (b :: t) with
       | ok r =>
         obtain ⟨dl, pos⟩ := r
         have hb := extractLongLen_ok (by simp) he
@@ -377,7 +412,7 @@ theorem extractLongLenAux_long (pfx : UInt8) (payload rest : Bytes)
     simp [maxInt32] at hmax
     have : payload.length % 2 ^ 64 = payload.length := Nat.mod_eq_of_lt (by omega)
     rw [this]
-    rw [if_neg (by simp [maxInt32]; omega)]
+    rw [if_neg (by rw [lenReject_iff]; omega)]
   rw [hm]
   simp only []
   rw [if_neg (by simp; omega)]
@@ -389,17 +424,19 @@ theorem header_Rb (b rest : Bytes) (hmax : b.length ≤ maxInt32) :
   · rename_i x
     split
     · rename_i hx
-      simp [header, shortString, hx]
+      simp [header, decCase0_iff, hx]
     · rename_i hx
       have hx2 := x.toNat_lt
-      simp only [List.cons_append, List.nil_append, header, UInt8.toNat_ofNat', shortString, longString]
+      simp only [List.cons_append, List.nil_append, header, UInt8.toNat_ofNat', shortString, longString,
+        decCase0_iff, decCase1_iff, decCase2_iff]
       simp [slice?, Outcome.bind]
   · rename_i hns
     split
     · rename_i h56
       have hp : (UInt8.ofNat (128 + b.length)).toNat = 128 + b.length := by
         simp [UInt8.toNat_ofNat']; omega
-      simp only [List.cons_append, header, hp, shortString, longString]
+      simp only [List.cons_append, header, hp, shortString, longString, decCase0_iff, decCase1_iff,
+        decCase2_iff]
       by_cases h0 : b.length = 0
       · have : b = [] := List.eq_nil_of_length_eq_zero h0
         subst this
@@ -408,17 +445,20 @@ theorem header_Rb (b rest : Bytes) (hmax : b.length ≤ maxInt32) :
         simp only [Nat.add_sub_cancel_left, List.length_cons, List.length_append, Nat.add_sub_cancel]
         rw [if_neg (by omega)]
         rw [slice?_ne_panic (by omega) (by simp; omega)]
-        simp [Outcome.bind, Nat.add_comm]
+        have hm : b.length % 256 = b.length := by omega
+        simp [Outcome.bind, Nat.add_comm, hm]
     · rename_i h56
       have hk : (minBE b.length).length ≤ 4 :=
         minBE_length_le (by simp [maxInt32] at hmax; omega)
       have hk1 : 0 < (minBE b.length).length := minBE_length_pos (by omega)
       have hp : (UInt8.ofNat (183 + (minBE b.length).length)).toNat = 183 + (minBE b.length).length := by
         simp [UInt8.toNat_ofNat']; omega
-      simp only [List.cons_append, header, hp, shortString, longString, shortList, longList]
+      simp only [List.cons_append, header, hp, shortString, longString, shortList, longList,
+        decCase0_iff, decCase1_iff, decCase2_iff, decCase3_iff]
       rw [if_neg (by omega), if_neg (by omega), if_neg (by omega), if_pos (by omega)]
       unfold extractLongLen
-      simp only [Bool.false_eq_true, if_false, longString, Nat.add_sub_cancel_left, List.append_assoc]
+      have hsub : (183 + (minBE b.length).length + 256 - 183) % 256 = (minBE b.length).length := by omega
+      simp only [Bool.false_eq_true, if_false, longString, hsub, List.append_assoc]
       rw [extractLongLenAux_long _ _ _ (by omega) hmax]
       simp only [Outcome.bind]
       rw [slice?_ne_panic (by omega) (by simp; omega)]
@@ -437,9 +477,11 @@ theorem header_Rl (s rest : Bytes) (hmax : s.length ≤ maxInt32) :
   · rename_i h56
     have hp : (UInt8.ofNat (192 + s.length)).toNat = 192 + s.length := by
       simp [UInt8.toNat_ofNat']; omega
-    simp only [List.cons_append, header, hp, shortString, longString, shortList, longList]
+    simp only [List.cons_append, header, hp, shortString, longString, shortList, longList,
+      decCase0_iff, decCase1_iff, decCase2_iff, decCase3_iff, decCase4_iff]
     rw [if_neg (by omega), if_neg (by omega), if_neg (by omega), if_neg (by omega), if_pos (by omega)]
-    simp only [Nat.add_sub_cancel_left, List.length_cons, List.length_append, Nat.add_sub_cancel]
+    have hsub : (192 + s.length + 256 - 192) % 256 = s.length := by omega
+    simp only [hsub, List.length_cons, List.length_append, Nat.add_sub_cancel]
     rw [if_neg (by omega)]
     rw [slice?_ne_panic (by omega) (by simp; omega)]
     simp [Outcome.bind, Nat.add_comm]
@@ -449,10 +491,13 @@ theorem header_Rl (s rest : Bytes) (hmax : s.length ≤ maxInt32) :
     have hk1 : 0 < (minBE s.length).length := minBE_length_pos (by omega)
     have hp : (UInt8.ofNat (247 + (minBE s.length).length)).toNat = 247 + (minBE s.length).length := by
       simp [UInt8.toNat_ofNat']; omega
-    simp only [List.cons_append, header, hp, shortString, longString, shortList, longList]
-    rw [if_neg (by omega), if_neg (by omega), if_neg (by omega), if_neg (by omega), if_neg (by omega)]
+    simp only [List.cons_append, header, hp, shortString, longString, shortList, longList,
+      decCase0_iff, decCase1_iff, decCase2_iff, decCase3_iff, decCase4_iff, decCase5_iff]
+    rw [if_neg (by omega), if_neg (by omega), if_neg (by omega), if_neg (by omega), if_neg (by omega),
+      if_pos (by omega)]
     unfold extractLongLen
-    simp only [if_true, longList, Nat.add_sub_cancel_left, List.append_assoc]
+    have hsub : (247 + (minBE s.length).length + 256 - 247) % 256 = (minBE s.length).length := by omega
+    simp only [if_true, longList, hsub, List.append_assoc]
     rw [extractLongLenAux_long _ _ _ (by omega) hmax]
     simp only [Outcome.bind]
     rw [slice?_ne_panic (by omega) (by simp; omega)]
@@ -486,28 +531,27 @@ theorem int64ToMinimalBytes_eq {v : Nat} (h : v < 2 ^ 64) : int64ToMinimalBytes 
 theorem encodeBytes_str (b : Bytes) (h : b.length < 2 ^ 64) :
     encodeBytes b false = Spec.Rlp.Rb b := by
   match b, h with
-  | [], _ => simp [encodeBytes, Spec.Rlp.Rb, shortString, shortMax]
+  | [], _ => simp [encodeBytes, Spec.Rlp.Rb, shortString, encSingle_iff, encShort_iff]
   | [x], _ =>
     by_cases hx : x.toNat < 128
     · have : x.toNat ≤ 127 := by omega
-      simp [encodeBytes, Spec.Rlp.Rb, singleMax, hx, this]
+      simp [encodeBytes, Spec.Rlp.Rb, encSingle_iff, hx, this]
     · have : ¬ x.toNat ≤ 127 := by omega
-      simp [encodeBytes, Spec.Rlp.Rb, singleMax, shortMax, shortString, hx, this]
+      simp [encodeBytes, Spec.Rlp.Rb, encSingle_iff, encShort_iff, shortString, hx, this]
   | x :: y :: t, h =>
-    simp only [encodeBytes, Spec.Rlp.Rb, shortString, shortToLong, shortMax, Bool.false_eq_true, if_false]
+    simp only [encodeBytes, Spec.Rlp.Rb, shortString, shortToLong, encSingle_iff, encShort_iff,
+      Bool.false_eq_true, if_false]
+    rw [if_neg (by simp)]
     by_cases h56 : (x :: y :: t).length < 56
     · rw [if_pos (by omega), if_pos h56]
     · rw [if_neg (by omega), if_neg h56, int64ToMinimalBytes_eq h]
 
 theorem encodeBytes_list (s : Bytes) (h : s.length < 2 ^ 64) :
     encodeBytes s true = Spec.Rlp.Rl s := by
-  match s, h with
-  | [], _ => simp [encodeBytes, Spec.Rlp.Rl, shortList, shortMax]
-  | [x], _ => simp [encodeBytes, Spec.Rlp.Rl, shortList, shortMax]
-  | x :: y :: t, h =>
-    simp only [encodeBytes, Spec.Rlp.Rl, shortList, shortToLong, shortMax, Bool.false_eq_true, if_false, if_true]
-    by_cases h56 : (x :: y :: t).length < 56
-    · rw [if_pos (by omega), if_pos h56]
-    · rw [if_neg (by omega), if_neg h56, int64ToMinimalBytes_eq h]
+  simp only [encodeBytes, Spec.Rlp.Rl, shortList, shortToLong, encSingle_iff, encShort_iff, if_true]
+  rw [if_neg (by simp)]
+  by_cases h56 : s.length < 56
+  · rw [if_pos (by omega), if_pos h56]
+  · rw [if_neg (by omega), if_neg h56, int64ToMinimalBytes_eq h]
 
 end FFS.Model.Rlp
